@@ -15,3 +15,15 @@ add("C15", "model_checking", "complete explicit-state exploration of the CRC aut
     "All 2^24 transitions of the update step are executed on the real crc8404B and compared with a bit-serial reference; composition over all 2-byte strings ties the loop to the step, so by induction every input is covered.",
     "Assumes crc8404B has no state besides the running value (checked by the composition law on all 2-byte strings and long strings).",
     "E2", "DESIGN.md 4/C15")
+add("C03", "exploration", "bounded exhaustive enumeration; real writer output compared byte-for-byte with an independent serialiser/validator",
+    "Every payload length 1..N (plain and encrypted), every <=d-deviation vector over component count, tag layouts, encryption, declared length, 10 start offsets and 4 keys, and every ordered subset of BEC2 auth blocks: to_binary/write_file output must be byte-identical to an independently written serialiser using an independent AES, and be accepted with equal content by an independent validator.",
+    "The reference serialiser/AES (vf/ref) are trusted after their own cross-check against OpenSSL and FIPS-197 vectors; ECC blocks are compared structurally plus by independent ECIES unwrap.",
+    "E1", "DESIGN.md 4/C03")
+add("C08", "exploration", "complete enumeration of payload lengths 0..253 and of CRC byte values against an independent container model",
+    "Every payload length 0..253 x content classes x keys x both encryptor variants, every value of each CRC byte, every legal customer-key position (<=48), and reference-built negative frames (every wrong marker value, every CRC bit) are run through the real encrypt/decrypt and compared with an independent AES-CBC/CRC container model.",
+    "Reference AES/CRC trusted (self-checked); frames with non-zero padding are outside the statement.",
+    "E1", "DESIGN.md 4/C08")
+add("C16", "exploration", "complete table verification + bounded exhaustive enumeration of keys/blocks families, lengths, feeder splits and call histories",
+    "All 15 tables entry by entry against GF(2^8) definitions; every single-active-byte key and block for all key sizes; all modes for every length 1..64; ALL ways to cut inputs at <=2 (thorough 3) points through the feeders; adapter for every length 1..96; every call sequence of length <=3 (thorough 4) over three adapter objects compared with fresh objects.",
+    "Agreement on untested 128-bit values is inferred from the cipher's input-independent control flow; reference AES cross-checked against OpenSSL.",
+    "E1+E2", "DESIGN.md 4/C16")
